@@ -25,6 +25,15 @@ What is proved (level: translation validation):
   (breadth-first level, AND first), the stable sort by `AssignLevels` Yao
   levels, and the GMW evaluator's (AND-depth level, non-AND first) schedule
   are such orders.
+* `C09_constPropagate_preserves`, `C09_shortCircuit_preserves`,
+  `C09_prune_preserves`, `C09_compile_preserves_partial`,
+  `C09_pipeline_preserves`: direct models (`Model/Passes.lean`) of the four
+  passes over the builder-level gate/wire graph, each proved to preserve the
+  graph's input-to-output function on every input for every well-formed
+  graph (hypotheses decided by proved linear-time checkers,
+  `C09_wf_checkers_sound`).  Every model is tied to the real pass on every
+  run (same post-pass graph, wire for wire).  Only `Compile`'s breadth-first
+  numbering is validated per run instead of proved in general.
 Not proved (tested by simulation in the check): equivalence across
 multiplier thresholds and across targets.
 -/
@@ -34,6 +43,7 @@ import MpcVerif.Proofs.PassCP
 import MpcVerif.Proofs.PassPrune
 import MpcVerif.Proofs.PassSC
 import MpcVerif.Proofs.PassCompile
+import MpcVerif.Proofs.PassWF
 
 namespace Mpc
 
@@ -245,6 +255,39 @@ theorem C09_compile_preserves_partial (G : Graph) (gmw : Bool) (C : Circuit) (hw
     (hc : G.compileChecked gmw = some C) : ∀ x, C.compute x = G.compute x :=
   Graph.compileChecked_preserves G gmw C hwf hc
 
+/-- The hypotheses of the four pass theorems are decided by the executable,
+linear-time checkers of `Model/PassesWF.lean` (proved sound in
+`Proofs/PassWF.lean`); the driver runs them on every dumped builder graph of
+every program, so the theorems apply to the real pass inputs. -/
+theorem C09_wf_checkers_sound (G : Graph) :
+    (G.gwfCheck = true → G.GWF) ∧ (G.wfCPCheck = true → G.WFcp) ∧
+    (G.wfSCCheck = true → G.SCInv 0) ∧ (G.wfPruneCheck = true → G.PInv) :=
+  ⟨Graph.gwfCheck_sound G, Graph.wfCPCheck_sound G, Graph.wfSCCheck_sound G, Graph.wfPruneCheck_sound G⟩
+
+/-- The whole pipeline of `ssa.Program.CompileCircuit` after circuit
+construction: ConstPropagate → ShortCircuitXORZero → (Prune) → Compile.  If
+the executable well-formedness checks pass at each stage (they are run per
+program by the tie, together with the comparison of every stage with the real
+code), the compiled circuit computes the function of the raw builder graph on
+every input – with and without pruning, for both targets. -/
+theorem C09_pipeline_preserves (G G1 G3 : Graph) (gmw : Bool) (Coff Con : Circuit)
+    (h0 : G.wfCPCheck = true) (h1 : G.constPropagate = some G1)
+    (h2 : G1.wfSCCheck = true)
+    (h3 : G1.shortCircuitXORZero.wfPruneCheck = true)
+    (hoff : G1.shortCircuitXORZero.compileChecked gmw = some Coff)
+    (h4 : G1.shortCircuitXORZero.prune = some G3)
+    (hon : G3.compileChecked gmw = some Con) :
+    (∀ x, Coff.compute x = G.compute x) ∧ (∀ x, Con.compute x = G.compute x) ∧
+    (∀ x, Con.compute x = Coff.compute x) := by
+  obtain ⟨_, c1⟩ := C09_constPropagate_preserves G G1 (Graph.wfCPCheck_sound G h0) h1
+  obtain ⟨b2, c2⟩ := C09_shortCircuit_preserves G1 (Graph.wfSCCheck_sound G1 h2)
+  obtain ⟨p3, c3⟩ := C09_prune_preserves _ G3 (Graph.wfPruneCheck_sound _ h3) h4
+  have coff := C09_compile_preserves_partial _ gmw Coff b2.wf hoff
+  have con := C09_compile_preserves_partial G3 gmw Con p3.wf hon
+  have e1 : ∀ x, Coff.compute x = G.compute x := fun x => by rw [coff x, c2 x, c1 x]
+  have e2 : ∀ x, Con.compute x = G.compute x := fun x => by rw [con x, c3 x, c2 x, c1 x]
+  exact ⟨e1, e2, fun x => by rw [e1 x, e2 x]⟩
+
 /-! ### The target axis of the full statement is false on the pinned tree -/
 
 /-- `func main(a, b uint2) uint2 { return a / b }` compiled by the real compiler (repo HEAD b8285b2) for the
@@ -333,6 +376,42 @@ example : checkRefines exRaw { exOpt with gates := [⟨.inv, 0, 0, 2⟩, ⟨.and
 example : (exRaw.absRun #[]).isSome = true := by decide +kernel
 example : SSA exRaw.numWires exRaw.gates exRaw.inputDefined :=
   C09_absRun_ssa exRaw #[] (by decide) (by decide +kernel)
+
+/-- A raw builder graph as `CompileCircuit` produces it for
+`func main(a, b uint1) uint1 { return (b ^ 0) & 1 ^ 0 }`-like code: the three
+constant gates, `v = XOR(b, zero)` (an ID gate), `u = AND(v, one)`,
+`out = XOR(u, zero)` (the `Ret` ID gate), with the bookkeeping of the Go
+allocator (fan-out counters, output lists, input gates, value annotations). -/
+def exGraph : Graph :=
+  { nIn := 2, zero := 3, one := 4, outputs := [7],
+    wires := #[
+      { numOut := 3, outs := #[0, 1, 2] },
+      { numOut := 1, outs := #[3] },
+      { numOut := 2, input := some 0, outs := #[1, 2] },
+      { value := .zero, numOut := 2, input := some 1, outs := #[3, 5] },
+      { value := .one, numOut := 1, input := some 2, outs := #[4] },
+      { numOut := 1, input := some 3, outs := #[4] },
+      { numOut := 1, input := some 4, outs := #[5] },
+      { isOut := true, input := some 5 }],
+    gates := #[⟨.inv, 0, 0, 2, false⟩, ⟨.and, 0, 2, 3, false⟩, ⟨.xor, 0, 2, 4, false⟩,
+               ⟨.xor, 1, 3, 5, false⟩, ⟨.and, 5, 4, 6, false⟩, ⟨.xor, 6, 3, 7, false⟩] }
+
+/-- every stage of the pipeline on `exGraph`: hypotheses hold, passes succeed -/
+def exPipelineOk : Bool :=
+  exGraph.wfCPCheck &&
+  match exGraph.constPropagate with
+  | none => false
+  | some G1 =>
+    G1.wfSCCheck && G1.shortCircuitXORZero.wfPruneCheck &&
+    (G1.shortCircuitXORZero.compileChecked false).isSome &&
+    match G1.shortCircuitXORZero.prune with
+    | none => false
+    | some G3 => G3.gwfCheck && (G3.compileChecked false).isSome &&
+        -- the passes did something: AND with One aliased, two XOR-zero short-circuits, dead gates pruned
+        decide (((G3.gates.toList.filter fun g => !g.dead).length) < exGraph.gates.size)
+
+example : exPipelineOk = true := by decide +kernel
+example : exGraph.compute [false, true] = [true] := by decide +kernel
 
 /-- levels as `Gate.Visit` would assign them (breadth first) -/
 def exLevels : List Nat := [0, 1, 1, 0, 0, 1, 2, 3, 4]
